@@ -611,7 +611,11 @@ class TLSMemoryBIOProtocol(ProtocolWrapper):
         self._producer = None
         self._producerPaused = False
         self.transport.unregisterProducer()
-        if self.disconnecting and not self._appSendBuffer:
+        if (
+            self.disconnecting
+            and not self._appSendBuffer
+            and not self._lostTLSConnection
+        ):
             self._shutdownTLS()
 
 
